@@ -1,3 +1,541 @@
-/- C06: property theorems (stub, not yet built) -/
+/-
+C06 — Consolidation keeps pods schedulable and strictly lowers cost.
+
+Property theorems only (helper lemmas: `Karp/Proofs/Consolidate.lean`).
+Model: `Karp/Model/Consolidate.lean` (computeConsolidation, spot-to-spot, the price filter, WorstLaunchPrice,
+       filterOutSameInstanceType, validateCommand, IsEmpty; the scheduling simulation is an input).
+Spec:  `Karp/Spec/Consolidation.lean` (evaluated by the driver on the commands of the real code).
+
+Every theorem is stated for ALL catalogs, requirement sets, candidate lists, simulation results and feature-gate
+values; `ridKey` is the provider's reservation-id label (any key other than the capacity-type key).
+-/
+import Karp.Proofs.Consolidate
+import Karp.Proofs.ConsolidateSpec
+import Karp.Spec.Consolidation
+
 namespace Karp.C06
+open Karp.Req Karp.Consolidate
+
+/-! ## Fact expectations over the regenerated facts -/
+
+/-- "enough cheaper alternatives": 15 -/
+theorem fact_min_spot_to_spot : Karp.Gen.C06Facts.minInstanceTypesForSpotToSpot = 15 := by decide
+/-- the specification's floor is the code's constant -/
+theorem fact_spec_floor : Karp.Spec.Consolidation.spotFloor = minSpot := by decide
+/-- capacity-type precedence of `WorstLaunchPrice`: reserved, then spot, then on-demand -/
+theorem fact_precedence : Karp.Gen.C06Facts.worstLaunchPrecedence = ["reserved", "spot", "on-demand"] := by decide
+theorem fact_capacity_types :
+    Karp.Gen.C06Facts.capacityTypeKey = "karpenter.sh/capacity-type" ∧ Karp.Gen.C06Facts.ctSpot = "spot" ∧
+    Karp.Gen.C06Facts.ctOnDemand = "on-demand" ∧ Karp.Gen.C06Facts.ctReserved = "reserved" := by decide
+theorem fact_spec_keys : Karp.Spec.Consolidation.ctKey = ctKey ∧ Karp.Spec.Consolidation.zoneKey = zoneKey := by decide
+/-- the reservation-id label of the harness's provider is not the capacity-type key -/
+theorem fact_rid_key : Karp.Gen.C06Facts.testReservationIDLabel ≠ ctKey := by decide
+/-- commands are re-validated after 15 s -/
+theorem fact_validation_delay : Karp.Gen.C06Facts.commandValidationDelayNs = 15 * 1000000000 := by decide
+theorem fact_per_node_base : Karp.Gen.C06Facts.perNodeBaseCostNum = 1 ∧ Karp.Gen.C06Facts.perNodeBaseCostDen = 1 := by decide
+
+/-- the price filter keeps an option iff its launch price is STRICTLY below the bound, computed over the AVAILABLE
+    offerings, then checks minValues -/
+theorem fact_price_filter :
+    Karp.Gen.C06Facts.removeByPriceCmps = ["launchPrice < maxPrice"] ∧
+    Karp.Gen.C06Facts.removeByPriceCalls = ["WorstLaunchPrice", "Available", "SatisfiesMinValues"] := by decide
+
+theorem fact_worst_launch_price :
+    Karp.Gen.C06Facts.worstLaunchPriceCmps = ["len(compatOfs) != 0"] ∧
+    Karp.Gen.C06Facts.mostExpensiveCmps = ["a.Price > b.Price"] ∧
+    Karp.Gen.C06Facts.cheapestCmps = ["a.Price < b.Price"] := by decide
+
+/-- the candidate's price: first offering with the node's zone and capacity type -/
+theorem fact_offering_price :
+    Karp.Gen.C06Facts.offeringPriceCmps = ["o.Zone() == zone", "o.CapacityType() == capacityType"] ∧
+    Karp.Gen.C06Facts.resolveNodePriceCmps = ["instanceType == nil"] := by decide
+
+/-- the guards of `computeConsolidation`, in source order, and its essential call order: simulate, all-scheduled test,
+    price sum, sort, spot-to-spot branch, price filter, spot pin (`Add`) AFTER the filter -/
+theorem fact_compute_consolidation :
+    Karp.Gen.C06Facts.computeConsolidationCmps =
+      ["len(results.NewNodeClaims) == 0", "len(results.NewNodeClaims) != 1", "cn.capacityType != v1.CapacityTypeSpot",
+       "len(results.NewNodeClaims[0].InstanceTypeOptions) == 0"] ∧
+    Karp.Gen.C06Facts.computeConsolidationCalls =
+      ["SimulateScheduling", "AllNonPendingPodsScheduled", "sumCandidatePrices", "OrderByPrice", "computeSpotToSpotConsolidation",
+       "RemoveInstanceTypeOptionsByPriceAndMinValues", "Add"] := by decide
+
+/-- spot-to-spot: the spot pin (`Add`) comes BEFORE the filter; the guards in source order -/
+theorem fact_spot_to_spot :
+    Karp.Gen.C06Facts.spotToSpotCmps =
+      ["len(results.NewNodeClaims[0].InstanceTypeOptions) == 0", "len(candidates) > 1",
+       "len(results.NewNodeClaims[0].InstanceTypeOptions) < MinInstanceTypesForSpotToSpotConsolidation"] ∧
+    Karp.Gen.C06Facts.spotToSpotCalls = ["Add", "RemoveInstanceTypeOptionsByPriceAndMinValues"] := by decide
+
+theorem fact_same_type :
+    Karp.Gen.C06Facts.sameTypeCmps =
+      ["len(compatibleOfferings) == 0", "p < existingPrice", "pricesByInstanceType[it.Name] < maxPrice"] ∧
+    Karp.Gen.C06Facts.firstNCalls = ["computeConsolidation", "filterOutSameInstanceType"] := by decide
+
+theorem fact_validate_command :
+    Karp.Gen.C06Facts.validateCommandCmps =
+      ["len(candidates) == 0", "len(results.NewNodeClaims) == 0", "len(cmd.Replacements) == 0",
+       "len(results.NewNodeClaims) > 1", "len(cmd.Replacements) == 0"] ∧
+    Karp.Gen.C06Facts.validateCommandCalls = ["SimulateScheduling", "AllNonPendingPodsScheduled", "instanceTypesAreSubset"] ∧
+    Karp.Gen.C06Facts.subsetCmps = ["len(rhsNames.Intersection(lhsNames)) == len(lhsNames)"] ∧
+    Karp.Gen.C06Facts.isValidCalls = ["After", "validateCommand"] := by decide
+
+/-- every method releases a command only after validation -/
+theorem fact_methods :
+    Karp.Gen.C06Facts.singleComputeCalls = ["computeConsolidation", "Validate"] ∧
+    Karp.Gen.C06Facts.multiComputeCalls = ["firstNConsolidationOption", "Validate"] ∧
+    Karp.Gen.C06Facts.emptinessComputeCalls = ["Validate"] ∧
+    Karp.Gen.C06Facts.decisionCmps =
+      ["len(c.Candidates) > 0", "len(c.Replacements) > 0", "len(c.Candidates) > 0", "len(c.Replacements) == 0"] := by decide
+
+/-- the simulation: solve, truncate, then turn placements on uninitialized nodes into pod errors -/
+theorem fact_simulate :
+    Karp.Gen.C06Facts.simulateSchedulingCalls =
+      ["Solve", "TruncateInstanceTypes", "Initialized", "NewUninitializedNodeError"] := by decide
+
+/-- `IsEmpty`: reschedule cost at most the per-node base; cost = base + Σ max(0, EvictionCost) -/
+theorem fact_is_empty :
+    Karp.Gen.C06Facts.isEmptyCmps = ["c.RescheduleDisruptionCost <= PerNodeBaseDisruptionCost"] ∧
+    Karp.Gen.C06Facts.rescheduleCostCalls = ["Max", "EvictionCost"] := by decide
+
+/-- eviction cost = 1 + deletion-cost / 2^27 + priority / 2^25, clamped to [-10, 10] -/
+theorem fact_eviction_cost :
+    Karp.Gen.C06Facts.evictionBase = 1 ∧ Karp.Gen.C06Facts.evictionDelExp = 27 ∧ Karp.Gen.C06Facts.evictionPrioExp = 25 ∧
+    Karp.Gen.C06Facts.evictionClampLo = -10 ∧ Karp.Gen.C06Facts.evictionClampHi = 10 := by decide
+
+/-! ## A small catalog used by the non-vacuity examples and the recorded finding -/
+
+def ofr (z ct : String) (p : Nat) (av : Bool := true) (rid : String := "") : Offering :=
+  { zone := z, ct := ct, price := p, available := av, resID := rid }
+
+def big : IType := { name := "big", offerings := [ofr "z1" "on-demand" 1000, ofr "z1" "spot" 400] }
+def small : IType := { name := "small", offerings := [ofr "z1" "on-demand" 300, ofr "z1" "spot" 100, ofr "z2" "spot" 120 false] }
+def mid : IType := { name := "mid", offerings := [ofr "z1" "on-demand" 1200, ofr "z1" "spot" 350] }
+
+/-! ## Strictly cheaper -/
+
+/-- **C06_price** — whenever `computeConsolidation` decides to replace, EVERY launch the replacement request permits
+    (every available offering of every listed instance type that the FINAL requirements admit — not only the
+    capacity type `WorstLaunchPrice` looked at) costs strictly less than the removed nodes together.
+    Hypotheses on the claim handed over by the scheduler (`ClaimHyps`): offerings are reserved / spot / on-demand,
+    and a claim that can launch into a reservation was pinned to `reserved` (derived for the scheduler's last step in
+    `C06_reserved_pin`). -/
+theorem C06_price (ridKey : String) (hrid : ridKey ≠ ctKey) (gate : Bool) (cands : List Cand) (sim : Sim)
+    (R' : Reqs) (kept : List IType) (n : Nat)
+    (h : compute ridKey gate cands sim = .replace R' kept n) :
+    ∃ c, sim.claims = [c] ∧
+      (ClaimHyps ridKey c →
+        ∀ it ∈ kept, ∀ o ∈ it.offerings, o.available = true → offeringCompat ridKey R' o = true →
+          o.price < sumPrices cands) := by
+  obtain ⟨_, c, hc, hb⟩ := compute_replace_inv ridKey gate cands sim R' kept n h
+  refine ⟨c, hc, ?_⟩
+  intro hyp it hit o ho hav hcomp
+  cases hb with
+  | spot _ _ hR hk _ _ =>
+    subst hR
+    exact spot_branch_price ridKey hrid c.reqs _ _ kept hk it hit o ho hav hcomp
+  | general _ hk _ hR _ =>
+    subst hR
+    exact general_branch_price ridKey hrid c hyp _ kept hk it hit o ho hav hcomp
+
+/-- **C06_od_no_fallback** — in particular no permitted ON-DEMAND launch costs as much as (or more than) the removed
+    nodes: an on-demand node is never replaced by a request that can fall back to an equal-or-dearer on-demand launch. -/
+theorem C06_od_no_fallback (ridKey : String) (hrid : ridKey ≠ ctKey) (gate : Bool) (cands : List Cand) (sim : Sim)
+    (R' : Reqs) (kept : List IType) (n : Nat) (c : Claim)
+    (h : compute ridKey gate cands sim = .replace R' kept n) (hc : sim.claims = [c]) (hyp : ClaimHyps ridKey c)
+    (it : IType) (hit : it ∈ kept.take n) (o : Offering) (ho : o ∈ it.offerings)
+    (hav : o.available = true) (hcomp : offeringCompat ridKey R' o = true) (_hod : o.ct = onDemand) :
+    ¬ (sumPrices cands ≤ o.price) := by
+  obtain ⟨c', hc', hp⟩ := C06_price ridKey hrid gate cands sim R' kept n h
+  have : c' = c := by rw [hc] at hc'; exact (List.cons.inj hc').1.symm
+  subst this
+  have := hp hyp it (List.mem_of_mem_take hit) o ho hav hcomp
+  omega
+
+/-- **C06_pin** — when the simulated claim could launch both spot and on-demand, the final requirements admit spot
+    only: the cheaper-than filter was computed on the spot prices, so the on-demand fallback is removed. -/
+theorem C06_pin (ridKey : String) (hrid : ridKey ≠ ctKey) (gate : Bool) (cands : List Cand) (sim : Sim)
+    (R' : Reqs) (kept : List IType) (n : Nat) (c : Claim)
+    (h : compute ridKey gate cands sim = .replace R' kept n) (hc : sim.claims = [c])
+    (hboth : (c.reqs.get ctKey).has spot = true ∧ (c.reqs.get ctKey).has onDemand = true)
+    (o : Offering) (hcomp : offeringCompat ridKey R' o = true) : o.ct = spot := by
+  obtain ⟨_, c', hc', hb⟩ := compute_replace_inv ridKey gate cands sim R' kept n h
+  have : c' = c := by rw [hc] at hc'; exact (List.cons.inj hc').1.symm
+  subst this
+  have key : ∀ R, offeringCompat ridKey (Reqs.add1 R spotReq) o = true → o.ct = spot := by
+    intro R hx
+    rw [compat_add1_spot ridKey hrid] at hx
+    cases h1 : (o.ct == spot) with
+    | true => simpa using h1
+    | false => rw [h1] at hx; simp at hx
+  cases hb with
+  | spot _ _ hR _ _ _ => subst hR; exact key _ hcomp
+  | general _ _ _ hR _ =>
+    subst hR
+    simp only [hboth.1, hboth.2, Bool.and_self, if_true] at hcomp
+    exact key _ hcomp
+
+/-! ## Spot-to-spot -/
+
+/-- **C06_spot_to_spot** — a replacement of spot-only candidates by a request that may launch spot needs the
+    feature gate; the request is pinned to spot, every option has an available spot offering it can launch, and for
+    a single candidate at least 15 (strictly cheaper, by `C06_price`) options remain after the cut. -/
+theorem C06_spot_to_spot (ridKey : String) (gate : Bool) (cands : List Cand) (sim : Sim)
+    (R' : Reqs) (kept : List IType) (n : Nat) (c : Claim)
+    (h : compute ridKey gate cands sim = .replace R' kept n) (hc : sim.claims = [c])
+    (hspot : cands.all (fun cn => cn.ct == spot) = true) (hmay : (c.reqs.get ctKey).has spot = true) :
+    gate = true ∧ R' = c.reqs.add1 spotReq ∧
+    (∀ it ∈ kept, ∃ o ∈ it.offerings, o.available = true ∧ offeringCompat ridKey R' o = true) ∧
+    (cands.length ≤ 1 → minSpot ≤ (kept.take n).length) := by
+  obtain ⟨_, c', hc', hb⟩ := compute_replace_inv ridKey gate cands sim R' kept n h
+  have : c' = c := by rw [hc] at hc'; exact (List.cons.inj hc').1.symm
+  subst this
+  cases hb with
+  | general hs _ _ _ _ => rw [hspot, hmay] at hs; cases hs
+  | spot _ hg hR hk _ hn =>
+    refine ⟨hg, hR, ?_, ?_⟩
+    · intro it hit
+      have := (removeByPrice_mem ridKey R' _ _ kept hk it hit).1
+      exact (compatibleTypes_mem ridKey R' c'.its it this).2
+    · intro hle
+      rcases hn with ⟨h1, _⟩ | ⟨_, h2, h3⟩
+      · omega
+      · rw [List.length_take]; omega
+
+/-! ## Feasible home: what the decision guarantees about the simulation it was built from -/
+
+/-- **C06_feasible** — a command is produced only from a simulation in which every non-pending pod was scheduled
+    (placements on uninitialized nodes count as failures) and that opened at most one NodeClaim: none for a delete,
+    exactly one for a replace.  The replacement only NARROWS the simulated claim: its options are among the claim's
+    options and every launch its final requirements permit was already permitted by the simulated requirements — so
+    whatever holds for every launch of the simulated claim (C01: each pod has an admissible home there) holds for every
+    launch of the command's replacement. -/
+theorem C06_feasible (ridKey : String) (hrid : ridKey ≠ ctKey) (gate : Bool) (cands : List Cand) (sim : Sim) :
+    (compute ridKey gate cands sim = .delete → sim.allScheduled = true ∧ sim.claims = []) ∧
+    (∀ R' kept n, compute ridKey gate cands sim = .replace R' kept n →
+      sim.allScheduled = true ∧ ∃ c, sim.claims = [c] ∧ kept ≠ [] ∧
+        (∀ it ∈ kept.take n, it ∈ c.its) ∧
+        (∀ o, offeringCompat ridKey R' o = true → offeringCompat ridKey c.reqs o = true)) := by
+  refine ⟨compute_delete_inv ridKey gate cands sim, ?_⟩
+  intro R' kept n h
+  obtain ⟨ha, c, hc, hb⟩ := compute_replace_inv ridKey gate cands sim R' kept n h
+  refine ⟨ha, c, hc, ?_⟩
+  have narrow : ∀ o, offeringCompat ridKey (c.reqs.add1 spotReq) o = true → offeringCompat ridKey c.reqs o = true := by
+    intro o ho
+    rw [compat_add1_spot ridKey hrid] at ho
+    cases hx : offeringCompat ridKey c.reqs o <;> simp_all
+  cases hb with
+  | spot _ _ hR hk hne _ =>
+    subst hR
+    refine ⟨hne, ?_, narrow⟩
+    intro it hit
+    have := (removeByPrice_mem ridKey _ _ _ kept hk it (List.mem_of_mem_take hit)).1
+    exact (compatibleTypes_mem ridKey _ c.its it this).1
+  | general _ hk hne hR _ =>
+    subst hR
+    refine ⟨hne, ?_, ?_⟩
+    · intro it hit
+      exact (removeByPrice_mem ridKey _ _ _ kept hk it (List.mem_of_mem_take hit)).1
+    · intro o ho
+      split at ho
+      · exact narrow o ho
+      · exact ho
+
+/-- **C06_at_most_one** — no decision is taken from a simulation that opened two or more NodeClaims -/
+theorem C06_at_most_one (ridKey : String) (gate : Bool) (cands : List Cand) (sim : Sim)
+    (h : 2 ≤ sim.claims.length) : compute ridKey gate cands sim = .noop := by
+  unfold compute
+  cases sim.allScheduled with
+  | false => simp
+  | true =>
+    simp only [Bool.not_true, Bool.false_eq_true, if_false]
+    match hc : sim.claims, h with
+    | _ :: _ :: _, _ => rfl
+
+/-- a simulation with an unscheduled non-pending pod (or a placement on an uninitialized node) yields no command -/
+theorem C06_unscheduled_noop (ridKey : String) (gate : Bool) (cands : List Cand) (sim : Sim)
+    (h : sim.allScheduled = false) : compute ridKey gate cands sim = .noop := by
+  unfold compute; simp [h]
+
+/-! ## Multi-node -/
+
+/-- **C06_multi** — a multi-node step keeps a replacement only by narrowing `computeConsolidation`'s (so `C06_price`,
+    `C06_spot_to_spot`, `C06_feasible` carry over to every candidate prefix the binary search tries), and
+    **C06_same_type**: every kept option is strictly cheaper, by its worst-case launch price, than the cheapest
+    removed node of any instance type that was itself among the options. -/
+theorem C06_multi (ridKey : String) (gate : Bool) (cands : List Cand) (sim : Sim) (R : Reqs) (kept : List IType) (n : Nat)
+    (h : multiStep ridKey gate cands sim = .replace R kept n) :
+    ∃ kept0 n0, compute ridKey gate cands sim = .replace R kept0 n0 ∧ kept ≠ [] ∧ n = kept.length ∧
+      (∀ it ∈ kept, it ∈ kept0.take n0) ∧
+      (∀ it ∈ kept, ∀ it' ∈ kept0.take n0, cands.any (fun c => c.itName == it'.name) = true →
+        ∃ p, launchPrice ridKey R it = some p ∧ p < (typePrice cands it'.name).getD 0) := by
+  obtain ⟨kept0, n0, hc, hr, hne, hn⟩ := multiStep_replace_inv ridKey gate cands sim R kept n h
+  refine ⟨kept0, n0, hc, hne, hn, ?_, ?_⟩
+  · intro it hit
+    have := (removeByPrice_eq ridKey R _ _ kept hr).1
+    rw [this] at hit
+    exact (List.mem_filter.mp hit).1
+  · intro it hit it' hit' hcand
+    obtain ⟨m, hm, hle⟩ := sameTypeMax_le cands (kept0.take n0) it' hit' hcand
+    rw [hm] at hr
+    obtain ⟨_, p, hp, hlt⟩ := removeByPrice_mem ridKey R m _ kept hr it hit
+    exact ⟨p, hp, by omega⟩
+
+theorem C06_multi_delete (ridKey : String) (gate : Bool) (cands : List Cand) (sim : Sim)
+    (h : multiStep ridKey gate cands sim = .delete) : sim.allScheduled = true ∧ sim.claims = [] :=
+  compute_delete_inv ridKey gate cands sim (multiStep_delete_inv ridKey gate cands sim h)
+
+/-! ## Validation -/
+
+/-- **C06_validate_subset** — validation accepts a command only if the re-simulation schedules every non-pending pod,
+    opens exactly as many NodeClaims as the command has replacements, and offers every instance type of the command's
+    replacement. -/
+theorem C06_validate_subset (re : Sim) :
+    (∀ names, validateCommand (some names) re = true →
+      re.allScheduled = true ∧ ∃ c, re.claims = [c] ∧ ∀ n ∈ names, n ∈ c.its.map (·.name)) ∧
+    (validateCommand none re = true → re.allScheduled = true ∧ re.claims = []) :=
+  ⟨fun names h => validateCommand_replace names re h, validateCommand_delete re⟩
+
+/-! ### Recorded finding: validation does not look at requirements
+
+FULL statement the property needs of validation (the replacement that is released must still be what the pods need):
+
+    validateCommand (some names) re = true → re.claims = [c] →
+      ∀ o, offeringCompat ridKey cmdReqs o = true → offeringCompat ridKey c.reqs o = true
+
+i.e. every launch the command's replacement permits is one the RE-SIMULATED NodeClaim permits.  `validateCommand` does not
+even take the command's requirements as an input: it compares instance-type names only.  `C06_validate_subset` above is the
+part that holds (`…_partial` in the sense of the conventions); the witness below is the negation of the full statement,
+replayed on the real code by `corpus/c06.validate/001-…` (a zone-pinned pod that an existing node was going to take moves
+onto the replacement during the validation delay; the command is released with its zone-unrestricted replacement).
+Proposed repair: `fixes/C06-validate-replacement-requirements.patch` (validation also requires the command's replacement
+requirements to be at least as tight as the re-simulated ones); with it `validateCommand` gains that conjunct and the full
+statement becomes provable. -/
+
+def staleCmdReqs : Reqs := []
+def staleResim : Sim :=
+  { allScheduled := true,
+    claims := [{ reqs := [(zoneKey, { key := zoneKey, complement := false, values := ["z2"] })], its := [small, big] }] }
+
+theorem C06_validate_ignores_requirements :
+    validateCommand (some ["small"]) staleResim = true ∧
+    ∃ c o, staleResim.claims = [c] ∧ o ∈ small.offerings ∧ o.available = true ∧
+      offeringCompat "rid" staleCmdReqs o = true ∧ offeringCompat "rid" c.reqs o = false := by
+  refine ⟨by decide, _, ofr "z1" "spot" 100, rfl, by decide, by decide, by decide, by decide⟩
+
+/-! ## The scheduler's reserved pin (discharges `ClaimHyps.pinned`) -/
+
+/-- **C06_reserved_pin** — with the `ReservedCapacity` gate on, a claim whose last placement left it an available,
+    compatible reserved offering comes out of `FinalizeScheduling` admitting neither spot nor on-demand. -/
+theorem C06_reserved_pin (ridKey : String) (hrid : ridKey ≠ ctKey) (R0 : Reqs) (its : List IType) :
+    let c : Claim := { reqs := finalize ridKey R0 (offeringsToReserve ridKey true R0 its), its := its }
+    ∀ it ∈ c.its, ∀ o ∈ it.offerings, o.available = true → offeringCompat ridKey c.reqs o = true → o.ct = reserved →
+      (c.reqs.get ctKey).has spot = false ∧ (c.reqs.get ctKey).has onDemand = false := by
+  intro c it hit o ho hav hcomp hres
+  exact finalize_pins ridKey hrid R0 its it hit o ho hav hcomp hres
+
+/-! ## minValues -/
+
+/-- **C06_min_values** — the options of a non-truncating replacement still meet every minValues floor of the final
+    filter's requirements (the filter returns an error otherwise and no command is produced). -/
+theorem C06_min_values (ridKey : String) (R : Reqs) (m : Option Nat) (its kept : List IType)
+    (h : removeByPrice ridKey R m its = some kept) (hmk : hasMinValues R = true) (hne : kept ≠ []) :
+    ∃ i, 1 ≤ i ∧ i ≤ kept.length ∧ minSatisfied (minKeys R) (kept.take i) = true := by
+  have := satisfiesMinValues_ok R kept (removeByPrice_eq ridKey R m its kept h).2 hmk hne
+  exact ⟨_, this.1, this.2.1, this.2.2⟩
+
+/-! ## Emptiness -/
+
+/-- **C06_empty** — `IsEmpty` holds exactly when no reschedulable pod has a positive eviction cost
+    (1 + deletion-cost/2^27 + priority/2^25 > 0; the clamp to [-10, 10] never changes the sign). -/
+theorem C06_empty (pods : List PodCost) :
+    isEmpty pods = true ↔ ∀ p ∈ pods, ¬ (0 < (2 : Int) ^ 27 + p.delCost.getD 0 + 4 * p.prio.getD 0) := by
+  unfold isEmpty
+  rw [decide_eq_true_iff, podCostSum_le_zero]
+  constructor
+  · intro h p hp hpos
+    have := (evictionCost_pos_iff p).mpr hpos
+    have := h p hp
+    omega
+  · intro h p hp
+    have := h p hp
+    have h2 := (evictionCost_pos_iff p)
+    by_cases hx : 0 < evictionCostScaled p
+    · exact absurd (h2.mp hx) this
+    · omega
+
+/-- the model's rule and the specification's `evictionCostPositive` are the same predicate -/
+theorem C06_empty_spec (infos : List (Karp.Spec.Consolidation.PodInfo)) :
+    isEmpty (infos.map (fun i => { delCost := i.delCost, prio := i.prio })) =
+      infos.all (fun i => !Karp.Spec.Consolidation.evictionCostPositive i) := by
+  have h := C06_empty (infos.map (fun i => ({ delCost := i.delCost, prio := i.prio } : PodCost)))
+  cases hb : isEmpty (infos.map (fun i => ({ delCost := i.delCost, prio := i.prio } : PodCost))) with
+  | true =>
+    symm
+    rw [List.all_eq_true]
+    intro i hi
+    have := h.mp hb _ (List.mem_map.mpr ⟨i, hi, rfl⟩)
+    simp only [Karp.Spec.Consolidation.evictionCostPositive, Bool.not_eq_true', decide_eq_false_iff_not]
+    simp only at this
+    omega
+  | false =>
+    symm
+    cases ha : infos.all (fun i => !Karp.Spec.Consolidation.evictionCostPositive i) with
+    | false => rfl
+    | true =>
+      exfalso
+      have : isEmpty (infos.map (fun i => ({ delCost := i.delCost, prio := i.prio } : PodCost))) = true := by
+        apply h.mpr
+        intro p hp
+        obtain ⟨i, hi, rfl⟩ := List.mem_map.mp hp
+        have := List.all_eq_true.mp ha i hi
+        simp only [Karp.Spec.Consolidation.evictionCostPositive, Bool.not_eq_true', decide_eq_false_iff_not] at this
+        simp only
+        omega
+      rw [this] at hb; cases hb
+
+/-! ## The model's decision meets the executable specification
+
+The driver evaluates `Karp.Spec.Consolidation` on the commands of the REAL code.  These theorems say that the MODEL's
+decision, read as a command over the scenario it was computed for (`candOf`, `itypeOf`: `Karp/Model/ConsolidateScn.lean`),
+passes the price and the spot-to-spot clauses of that same specification — for every scenario, candidate list, simulation
+result and gate value. -/
+
+/-- **C06_spec_strictly_cheaper** — the specification's "every permitted launch is strictly cheaper than the removed nodes
+    together" holds of the model's replace decision. -/
+theorem C06_spec_strictly_cheaper (s : Karp.Scn.Scenario) (ridKey : String) (hrid : ridKey ≠ ctKey) (gate : Bool)
+    (nodes : List Karp.Scn.Node) (hnodes : ∀ n ∈ nodes, s.node? n.name = some n)
+    (sim : Sim) (R' : Reqs) (kept : List IType) (n : Nat) (c : Karp.Consolidate.Claim)
+    (hdec : compute ridKey gate (nodes.map (candOf s)) sim = .replace R' kept n) (hc : sim.claims = [c])
+    (hyp : ClaimHyps ridKey c)
+    (hcat : ∀ it ∈ kept, ∃ sit, s.it? it.name = some sit ∧ itypeOf sit = it)
+    (cmd : Karp.Spec.Consolidation.Command) (hcands : cmd.cands = nodes.map (·.name))
+    (cl : Karp.Scn.Claim) (hrepl : cmd.repl = [cl]) (hreqs : cl.reqs = R') (hits : cl.its = (kept.take n).map (·.name)) :
+    Karp.Spec.Consolidation.strictlyCheaper s ridKey cmd = none := by
+  obtain ⟨c', hc', hp⟩ := C06_price ridKey hrid gate _ sim R' kept n hdec
+  have : c' = c := by rw [hc] at hc'; exact (List.cons.inj hc').1.symm
+  subst this
+  have hprice := hp hyp
+  unfold Karp.Spec.Consolidation.strictlyCheaper
+  rw [hrepl, hcands, combinedPrice_eq s nodes hnodes]
+  apply firstV_none
+  intro v hv
+  simp only [List.map_cons, List.map_nil, List.mem_singleton] at hv
+  subst hv
+  apply firstV_none
+  intro v hv
+  obtain ⟨itn, hitn, rfl⟩ := List.mem_map.mp hv
+  rw [hits] at hitn
+  obtain ⟨it, hit, rfl⟩ := List.mem_map.mp hitn
+  have hk : it ∈ kept := List.mem_of_mem_take hit
+  obtain ⟨sit, hs, he⟩ := hcat it hk
+  simp only [hs]
+  have hnone : (Karp.Spec.Consolidation.launches ridKey cl.reqs sit).find?
+      (fun o => decide (sumPrices (nodes.map (candOf s)) ≤ o.price)) = none := by
+    rw [List.find?_eq_none]
+    intro o ho
+    have ho' := List.mem_filter.mp ho
+    have hav : o.available = true := by
+      have := ho'.2; cases h1 : o.available <;> simp_all
+    have hperm : Karp.Spec.Consolidation.permits ridKey cl.reqs o = true := by
+      have := ho'.2; cases h1 : Karp.Spec.Consolidation.permits ridKey cl.reqs o <;> simp_all
+    rw [permits_eq, hreqs] at hperm
+    have hmem : offeringOf o ∈ it.offerings := by
+      rw [← he]; exact List.mem_map.mpr ⟨o, ho'.1, rfl⟩
+    have := hprice it hk (offeringOf o) hmem hav hperm
+    simp only [offeringOf] at this
+    simp only [decide_eq_true_eq]
+    omega
+  rw [hnone]
+
+
+/-- **C06_spec_spot_to_spot** — the specification's spot-to-spot clause (gate, and for a single node at least 15
+    launchable options) holds of the model's replace decision. -/
+theorem C06_spec_spot_to_spot (s : Karp.Scn.Scenario) (ridKey : String) (gate : Bool)
+    (nodes : List Karp.Scn.Node) (hnodes : ∀ n ∈ nodes, s.node? n.name = some n)
+    (sim : Sim) (R' : Reqs) (kept : List IType) (n : Nat) (c : Karp.Consolidate.Claim)
+    (hdec : compute ridKey gate (nodes.map (candOf s)) sim = .replace R' kept n) (hc : sim.claims = [c])
+    (hcat : ∀ it ∈ kept, ∃ sit, s.it? it.name = some sit ∧ itypeOf sit = it)
+    (cmd : Karp.Spec.Consolidation.Command) (hcands : cmd.cands = nodes.map (·.name))
+    (cl : Karp.Scn.Claim) (hrepl : cmd.repl = [cl]) (hreqs : cl.reqs = R') (hits : cl.its = (kept.take n).map (·.name)) :
+    Karp.Spec.Consolidation.spotToSpot s ridKey gate cmd = none := by
+  unfold Karp.Spec.Consolidation.spotToSpot
+  rw [hrepl]
+  apply firstV_none
+  intro v hv
+  simp only [List.map_cons, List.map_nil, List.mem_singleton] at hv
+  subst hv
+  by_cases hcond : (Karp.Spec.Consolidation.allSpot s cmd.cands && (cl.reqs.get Karp.Spec.Consolidation.ctKey).has "spot") = true
+  · rw [if_pos hcond]
+    have hk : Karp.Spec.Consolidation.ctKey = ctKey := by decide
+    have hsp : ("spot" : String) = spot := by decide
+    rw [hcands, allSpot_eq s nodes hnodes, hk, hsp, hreqs] at hcond
+    have hall : (nodes.map (candOf s)).all (fun cn => cn.ct == spot) = true := by
+      cases hx : (nodes.map (candOf s)).all (fun cn => cn.ct == spot) <;> simp_all
+    have hR' : (R'.get ctKey).has spot = true := by
+      cases hx : (R'.get ctKey).has spot <;> simp_all
+    -- the simulated claim could launch spot, too
+    obtain ⟨_, c', hc', hb⟩ := compute_replace_inv ridKey gate _ sim R' kept n hdec
+    have : c' = c := by rw [hc] at hc'; exact (List.cons.inj hc').1.symm
+    subst this
+    have hmay : (c'.reqs.get ctKey).has spot = true := by
+      cases hb with
+      | spot _ _ hR _ _ _ => subst hR; exact get_add1_spot_has _ _ hR'
+      | general _ _ _ hR _ =>
+        subst hR
+        split at hR'
+        · exact get_add1_spot_has _ _ hR'
+        · exact hR'
+    obtain ⟨hg, _, hlaunch, hlen⟩ := C06_spot_to_spot ridKey gate _ sim R' kept n c' hdec hc hall hmay
+    simp only [hg, Bool.not_true, Bool.false_eq_true, if_false]
+    have hlt : (Karp.Spec.Consolidation.launchableTypes s ridKey cl).length = (kept.take n).length := by
+      unfold Karp.Spec.Consolidation.launchableTypes
+      rw [hits, hreqs]
+      exact launchable_length s ridKey R' (kept.take n)
+        (fun it hit => hcat it (List.mem_of_mem_take hit)) (fun it hit => hlaunch it (List.mem_of_mem_take hit))
+    by_cases h1 : (cmd.cands.length == 1) = true
+    · have hone : (nodes.map (candOf s)).length ≤ 1 := by
+        rw [hcands] at h1
+        simp only [List.length_map, beq_iff_eq] at h1 ⊢
+        omega
+      have := hlen hone
+      have hfloor : Karp.Spec.Consolidation.spotFloor = minSpot := by decide
+      rw [hlt, hfloor]
+      simp only [h1, Bool.true_and]
+      rw [if_neg (by simp only [decide_eq_true_eq]; omega)]
+    · simp [h1]
+  · rw [if_neg hcond]
+
+
+/-! ## Non-vacuity: concrete catalogs exercising every branch -/
+
+def odCand : Cand := { name := "n1", itName := "big", zone := "z1", ct := "on-demand", offerings := big.offerings }
+def spotCand : Cand := { name := "n2", itName := "big", zone := "z1", ct := "spot", offerings := big.offerings }
+def claim0 : Claim := { reqs := [], its := [small, mid, big] }
+def sim0 : Sim := { allScheduled := true, claims := [claim0] }
+
+/-- on-demand → spot: all three survive on their spot prices (100, 350, 400 < 1000) and the request is pinned to spot;
+    `mid`'s on-demand offering (1200 ≥ 1000) is exactly what the pin excludes -/
+example : (compute "rid" false [odCand] sim0).its.map (·.name) = ["small", "mid", "big"] := by decide
+/-- a claim restricted to on-demand: only `small` (300 < 1000) survives -/
+example : (compute "rid" false [odCand] { allScheduled := true, claims := [{ reqs := [(ctKey, { key := ctKey, complement := false, values := ["on-demand"] })], its := [small, mid, big] }] }).its.map (·.name) = ["small"] := by decide
+example : ((compute "rid" false [odCand] sim0).reqs.get ctKey).has onDemand = false := by decide
+example : ClaimHyps "rid" claim0 := ⟨by decide, by decide⟩
+/-- spot → spot with the gate off: no command; with the gate on but fewer than 15 cheaper options: no command -/
+example : (compute "rid" false [spotCand] sim0).isReplace = false := by decide
+example : (compute "rid" true [spotCand] sim0).isReplace = false := by decide
+/-- two spot candidates (multi-node): the 15-option floor does not apply -/
+example : (compute "rid" true [spotCand, spotCand] sim0).its.map (·.name) = ["small", "mid", "big"] := by decide
+/-- … and the multi-node step then removes `big` (the candidates' own type) and everything as dear as it -/
+example : (multiStep "rid" true [spotCand, spotCand] sim0).its.map (·.name) = ["small", "mid"] := by decide
+/-- emptiness: cost exactly 0 is empty, one step above is not -/
+example : isEmpty [{ delCost := some (-134217728), prio := none }] = true := by decide
+example : isEmpty [{ delCost := some (-134217727), prio := none }] = false := by decide
+example : isEmpty [{ delCost := none, prio := some (-33554432) }, { delCost := some (-2147483647), prio := none }] = true := by decide
+
+/-- the `ClaimHyps.pinned` hypothesis is needed: a claim that may launch spot although an available reserved offering
+    is compatible is priced by the reservation and would admit a dearer spot launch -/
+def resType : IType := { name := "res", offerings := [ofr "z1" "reserved" 10 true "r-1", ofr "z1" "spot" 5000] }
+example : (compute "rid" false [odCand] { allScheduled := true, claims := [{ reqs := [], its := [resType] }] }).its.map (·.name) = ["res"] := by decide
+
 end Karp.C06
